@@ -11,7 +11,7 @@ R = 0.1  # sphere radius
 THETA = 0.4 * 1.0 * R * R  # solid sphere m = 1
 
 
-def solver_options(tol=1e-10, max_iter=20000):
+def solver_options(tol=1e-10, max_iter=2000):
     from cardillo.solver import SolverOptions
 
     return SolverOptions(newton_atol=tol, newton_rtol=tol, fixed_point_atol=tol, fixed_point_rtol=tol, fixed_point_max_iter=max_iter,
